@@ -1,1 +1,148 @@
+import GqlProofs.Lexer.BlockSpec
+import GqlProofs.Lexer.Pos
+import GqlProofs.Lexer.NumFollow
+/-
+  C03 — tokenisation conforms to the lexical grammar (theorem-backed parts).
 
+  The specification is `GqlModel/Lexer/Spec.lean` (written from the October 2021 grammar over code
+  points, independent of the model).  What is PROVED here about the model that the driver runs and
+  that ./check C03 ties to lexer.ReadToken:
+
+   * `C03_blockstring_eq_spec`  — the block string value algorithm is BlockStringValue() of the spec;
+   * `C03_punctuators_eq_spec`  — the punctuator table is the spec's Punctuator production;
+   * `C03_number_lookahead`     — an Int/Float token is never directly followed by a digit, `.` or a
+                                   NameStart (the look-ahead restriction; repaired finding R3a);
+   * `C03_name_maximal`         — a Name token is a maximal run of name characters (maximal munch);
+   * `C03_ignored_only_ws`      — what `ws` skips between tokens is made of Ignored characters only
+                                   (blank, comma, line terminators; on ASCII sources) and it stops
+                                   exactly in front of a non-ignored character.
+
+  NOT proved (covered by the exhaustive three-way enumeration of ./check C03 over lex19 / block6 /
+  lexraw16 and the random sweeps): the full equivalence `lexAll inp ≈ Spec.lex (decode inp)` for
+  strings with escapes, comments, and non-ASCII sources:
+      theorem C03_lex_sound_complete (cps) : lexAll (utf8Encode cps) ≈ Spec.lex cps
+  Known finding (not a theorem): a block string is closed by the LAST three quotes of a longer run.
+-/
+open Gql Gql.Lexer
+
+/-- The model's `blockStringValue` (lexer/blockstring.go) is the specification's BlockStringValue()
+    on every raw value without CR (the lexer turns CR and CRLF into LF before calling it). -/
+theorem C03_blockstring_eq_spec (raw : Bytes) (h : 13 ∉ raw) :
+    blockStringValue raw = Spec.blockStringValue raw :=
+  blockStringValue_eq_spec raw h
+
+/-- The single-byte punctuators of `ReadToken` are exactly the spec's Punctuator production
+    (`...` is handled separately on both sides). -/
+theorem C03_punctuators_eq_spec (b : Nat) : punct b = Spec.punctOf b := by
+  by_cases hb : b < 126
+  · have : ∀ b < 126, punct b = Spec.punctOf b := by decide
+    exact this b hb
+  · have h1 : punct b = none := by
+      cases h : punct b with
+      | none => rfl
+      | some k =>
+        have hm := lookup_mem punctTable b k h
+        have : ∀ p ∈ punctTable, p.1 < 126 := by decide
+        exact absurd (this (b, k) hm) hb
+    rw [h1]
+    have n : ∀ k, k < 126 → ¬ b = k := fun k hk => by omega
+    simp only [Spec.punctOf, n 33 (by decide), n 36 (by decide), n 38 (by decide), n 40 (by decide),
+      n 41 (by decide), n 58 (by decide), n 61 (by decide), n 64 (by decide), n 91 (by decide),
+      n 93 (by decide), n 123 (by decide), n 124 (by decide), n 125 (by decide), if_false]
+
+/-- An Int or Float token is never directly followed by a digit, a dot or a name start:
+    `readNumber` either fails or leaves a rest that satisfies the look-ahead restriction. -/
+theorem C03_number_lookahead (start : Cur) (rest0 : Bytes) (t : Token) (r : Bytes) (c' : Cur)
+    (h : readNumber start rest0 = .tok t r c') : numFollowBad r = false := by
+  have key : (readNumber start rest0).followOK := by
+    unfold readNumber readNumberCore
+    split
+    · split
+      · simp [Step.followOK, mkErr]
+      · unfold numFrac
+        split
+        · simp only []; split
+          · simp [Step.followOK, mkErr]
+          · exact numExp_followOK _ _ _ _ _
+        · exact numExp_followOK _ _ _ _ _
+    · split
+      · simp [Step.followOK, mkErr]
+      · unfold numFrac
+        split
+        · simp only []; split
+          · simp [Step.followOK, mkErr]
+          · exact numExp_followOK _ _ _ _ _
+        · exact numExp_followOK _ _ _ _ _
+  rw [h] at key
+  exact key
+
+/-- `numFollowBad` is the negation of the spec's `numberFollowOk` on ASCII (bytes < 128 are the
+    code points; a byte ≥ 128 starts a multi-byte character, which is no Digit, `.` or NameStart). -/
+theorem C03_lookahead_is_spec (b : Nat) (t : Bytes) (hb : b < 128) :
+    numFollowBad (b :: t) = !Spec.numberFollowOk (b :: t) := by
+  have : ∀ b < 128, (b == 46 || isNameCont b) = !(!(Spec.isDigitC b || b == 46 || Spec.isNameStartC b)) := by decide
+  simpa [numFollowBad, Spec.numberFollowOk] using this b hb
+
+/-- Maximal munch for names: the bytes `nameSpan` takes are all name characters and what it leaves
+    does not start with one. -/
+theorem C03_name_maximal (l : Bytes) :
+    (∀ b ∈ (nameSpan l).1, isNameCont b = true) ∧
+    (match (nameSpan l).2 with | [] => True | b :: _ => isNameCont b = false) ∧
+    l = (nameSpan l).1 ++ (nameSpan l).2 := by
+  fun_induction nameSpan l with
+  | case1 => simp
+  | case2 b tl hb n r heq ih =>
+    simp only [heq] at ih
+    refine ⟨?_, ih.2.1, by simp [← ih.2.2]⟩
+    intro x hx
+    simp at hx
+    rcases hx with rfl | hx
+    · exact hb
+    · exact ih.1 x hx
+  | case3 b tl hb => simp; simpa using hb
+
+/-- `isNameCont` is the spec's NameContinue on ASCII code points. -/
+theorem C03_name_class_is_spec (b : Nat) (hb : b < 128) : isNameCont b = Spec.isNameContinueC b := by
+  have : ∀ b < 128, isNameCont b = Spec.isNameContinueC b := by decide
+  exact this b hb
+
+/-- What `ws` skips consists of Ignored characters of the grammar only (ASCII sources: TAB, space,
+    comma, LF, CR), and it stops exactly in front of a character that is not one of them. -/
+theorem C03_ignored_only_ws (rest : Bytes) (c : Cur) (hA : Ascii rest) :
+    ∃ ign, rest = ign ++ (ws rest c).1 ∧ (∀ b ∈ ign, b = 9 ∨ b = 32 ∨ b = 44 ∨ b = 10 ∨ b = 13) ∧
+      (match (ws rest c).1 with
+       | [] => True
+       | b :: _ => ¬ (b = 9 ∨ b = 32 ∨ b = 44 ∨ b = 10 ∨ b = 13)) := by
+  fun_induction ws rest c with
+  | case1 c => exact ⟨[], rfl, by simp, trivial⟩
+  | case2 b r c hb ih =>
+    obtain ⟨ign, h1, h2, h3⟩ := ih (Ascii_tail hA)
+    refine ⟨b :: ign, by simp [← h1], ?_, h3⟩
+    intro x hx; simp at hx; rcases hx with rfl | hx
+    · omega
+    · exact h2 x hx
+  | case3 r c hb1 ih =>
+    obtain ⟨ign, h1, h2, h3⟩ := ih (Ascii_tail hA)
+    refine ⟨10 :: ign, by simp [← h1], ?_, h3⟩
+    intro x hx; simp at hx; rcases hx with rfl | hx
+    · omega
+    · exact h2 x hx
+  | case4 c r' hb1 hb2 ih =>
+    obtain ⟨ign, h1, h2, h3⟩ := ih (Ascii_tail (Ascii_tail hA))
+    refine ⟨13 :: 10 :: ign, by simp [← h1], ?_, h3⟩
+    intro x hx; simp at hx; rcases hx with rfl | rfl | hx
+    · omega
+    · omega
+    · exact h2 x hx
+  | case5 c r hr' hb1 hb2 ih =>
+    obtain ⟨ign, h1, h2, h3⟩ := ih (Ascii_tail hA)
+    refine ⟨13 :: ign, by simp [← h1], ?_, h3⟩
+    intro x hx; simp at hx; rcases hx with rfl | hx
+    · omega
+    · exact h2 x hx
+  | case6 => exact absurd (Ascii_head hA) (by omega)
+  | case7 => exact absurd (Ascii_head hA) (by omega)
+  | case8 b r c hb1 hb2 hb3 hb4 => exact ⟨[], rfl, by simp, by simp; omega⟩
+
+-- non-vacuity
+example : blockStringValue (str "  a\n    b") = str "  a\nb" := by decide
